@@ -113,8 +113,9 @@ class _SockSeq:
         self.alive = False
 
 
-def run_sync_sessions(tapes):
-    """one TelnetTransport object through open / read to EOF / close for every tape, using the transport's own open() and close()"""
+def run_sync_sessions(tapes, closing=True):
+    """one TelnetTransport object through open / read to EOF / close for every tape, using the transport's own open() and close();
+    closing=False: the session was dropped by the device (EOF, socket dead) and the caller opens again WITHOUT calling close()"""
     from scrapli.transport.plugins.telnet.transport import PluginTransportArgs, TelnetTransport
     import scrapli.transport.plugins.telnet.transport as tm
     t = TelnetTransport(_targs(), PluginTransportArgs())
@@ -132,14 +133,17 @@ def run_sync_sessions(tapes):
                 if t._eof:
                     break
             sent = list(seq.sock.sent)
-            t.close()
+            if closing:
+                t.close()
+            else:
+                seq.close()      # the peer is gone: the socket is dead, the transport object has not been told
             out.append((data, sent, parts))
     finally:
         tm.Socket = real
     return out
 
 
-async def run_async_sessions(tapes):
+async def run_async_sessions(tapes, closing=True):
     import asyncio as _aio
     from scrapli.transport.plugins.asynctelnet.transport import AsynctelnetTransport, PluginTransportArgs
     t = AsynctelnetTransport(_targs(), PluginTransportArgs())
@@ -161,7 +165,8 @@ async def run_async_sessions(tapes):
                 if t._eof:
                     break
             sent = list(t.stdin.sent)
-            t.close()
+            if closing:
+                t.close()
             out.append((data, sent, parts))
     finally:
         _aio.open_connection = real
@@ -382,17 +387,21 @@ def run(tier, seed):
         ck.proof_broken("model driver Drv/C15.lean (histories)", repr(e))
         hmodel = None
     for hi, (t1, items2, t2) in enumerate(hist):
-        exp = spec(items2)
+      exp = spec(items2)
+      for closing in (True, False):
+        if not closing and hi % 2 == 0:
+            # the device drops session 1 in the middle of a command (IAC, IAC verb): the caller opens again without close()
+            t1 = t1[:-1] + [ck.rng.choice([b"\xff", b"\xff\xfd", b"\xff\xfb"]), b""]
         for si, stack in enumerate(("sync", "async")):
             try:
-                r = run_sync_sessions([t1, t2]) if stack == "sync" else asyncio.run(run_async_sessions([t1, t2]))
+                r = run_sync_sessions([t1, t2], closing) if stack == "sync" else asyncio.run(run_async_sessions([t1, t2], closing))
             except Exception as e:
-                ck.violation({"stack": stack, "history": [[hexs(c) for c in t1], [hexs(c) for c in t2]]}, f"{stack} telnet transport raised {e!r} in an open/close/open history")
+                ck.violation({"stack": stack, "closing": closing, "history": [[hexs(c) for c in t1], [hexs(c) for c in t2]]}, f"{stack} telnet transport raised {e!r} in an open/{'close/' if closing else 'EOF/'}open history")
                 continue
             d2, w2, parts2 = r[1]
-            ck.case(("history", stack, tuple(t1), tuple(t2)), nontrivial=True, tags=("reopen-history", f"first-session-cmds={sum(1 for c in b''.join(t1) if c == 255)}"))
+            ck.case(("history", stack, closing, tuple(t1), tuple(t2)), nontrivial=True, tags=("reopen-history", "close-then-open" if closing else "eof-then-open-without-close", f"first-session-cmds={sum(1 for c in b''.join(t1) if c == 255)}"))
             if (d2, w2) != exp:
-                ck.violation({"stack": stack, "history": [[hexs(c) for c in t1], [hexs(c) for c in t2]], "items_session2": items2,
+                ck.violation({"stack": stack, "closing": closing, "history": [[hexs(c) for c in t1], [hexs(c) for c in t2]], "items_session2": items2,
                               "got_data": hexs(d2), "got_writes": [hexs(w) for w in w2], "want_data": hexs(exp[0]), "want_writes": [hexs(w) for w in exp[1]]},
                              f"{stack} telnet transport: the second session on a re-opened transport object differs from the stream's application bytes / RFC replies "
                              "(state of the first session survived close()/open())")
